@@ -435,6 +435,13 @@ def random_docs(run, shard, thorough: bool) -> None:
         check_trace_sanity(run, text, opts, ref, steps, 'random')
         dl: List[Tuple[str, Any]] = [('lines', text.splitlines(keepends=True)), ('file', io.StringIO(text, newline='')),
                                      ('chars', list(text))]
+        if i % 3 == 0:
+            # a file object of which the caller has already read a first part: tokens start where it stands
+            lead = rng.choice(('header line\n', '"unterminated\n', '/* open comment\n', '{ [ (\n'))
+            part = io.StringIO(lead + text, newline='')
+            part.readline() if rng.random() < 0.5 else part.seek(len(lead))
+            dl.append(('partly-read file', part))
+            run.count('partly_read_file_deliveries')
         if i % 4 == 0:
             # a file object as the operating system hands it out (its .name is the descriptor number, an int)
             rf = tempfile.TemporaryFile('w+', encoding='utf8', errors='surrogatepass', newline='')
@@ -655,4 +662,4 @@ def replay(run, data) -> None:
 
 
 # (kept at the end of the file so that the text above stays the description the check was first built to)
-RULE += ' ' + "Later additions: focused core over the remaining punctuation (' ; = , } #); the iterator protocol and skipping_newlines() compared with the token trace; an unrelated tokenizer dropped with a pending pushed-back token before every third trace."
+RULE += ' ' + "Later additions: focused core over the remaining punctuation (' ; = , } #); the iterator protocol and skipping_newlines() compared with the token trace; an unrelated tokenizer dropped with a pending pushed-back token before every third trace. Every third random document is also delivered through a file object of which a first part (another line) was read before: the trace equals that of the remaining text."
